@@ -453,3 +453,488 @@ Proof.
     + intros s0; discriminate.
     + intros e0. split; intros [= <-]; reflexivity.
 Qed.
+
+(* ---- prefix determinacy and fuel sufficiency of the validator's bounded readers ------------------ *)
+(* a reader only looks at the bits it consumes; and it never runs out of fuel when fuel > #bits *)
+Definition good {A} (f : nat) (rd : rstate -> res (A * rstate)) : Prop :=
+  (forall bl bs a bl' bs', rd (bl, bs) = Ok (a, (bl', bs')) ->
+     exists used, bs = used ++ bs' /\ forall tail, rd (bl, used ++ tail) = Ok (a, (bl', tail))) /\
+  (forall bl bs, (length bs < f)%nat -> rd (bl, bs) <> Err OutOfFuel).
+
+Lemma good_ret {A} f (a : A) : good f (fun st => Ok (a, st)).
+Proof.
+  split.
+  - intros bl bs a' bl' bs' [= <- <- <-]. exists []. split; [reflexivity|]. intros tail. reflexivity.
+  - intros; discriminate.
+Qed.
+
+Lemma good_bind {A B} f (m : rstate -> res (A * rstate)) (k : A -> rstate -> res (B * rstate)) :
+  good f m -> (forall a, good f (k a)) ->
+  good f (fun st => bind (m st) (fun x => let '(a, st1) := x in k a st1)).
+Proof.
+  intros [Hm1 Hm2] Hk. split.
+  - intros bl bs b bl' bs' H.
+    destruct (m (bl, bs)) as [[a [bl1 bs1]]|e] eqn:Em; cbn in H; [|discriminate].
+    destruct (Hm1 _ _ _ _ _ Em) as (u1 & -> & Hu1).
+    destruct (Hk a) as [Hk1 _]. destruct (Hk1 _ _ _ _ _ H) as (u2 & -> & Hu2).
+    exists (u1 ++ u2). split; [apply app_assoc|].
+    intros tail. rewrite <- app_assoc. rewrite Hu1. cbn. apply Hu2.
+  - intros bl bs Hlen H.
+    destruct (m (bl, bs)) as [[a [bl1 bs1]]|e] eqn:Em; cbn in H.
+    + destruct (Hm1 _ _ _ _ _ Em) as (u1 & -> & _).
+      destruct (Hk a) as [_ Hk2]. apply (Hk2 bl1 bs1); [|exact H].
+      rewrite app_length in Hlen. lia.
+    + apply (Hm2 bl bs Hlen). rewrite Em. injection H as ->. reflexivity.
+Qed.
+
+Lemma good_read_many {A B} f (step : A -> rstate -> res (B * rstate)) l :
+  (forall a, good f (step a)) -> good f (read_many step l).
+Proof.
+  intros Hs. induction l as [|a l IH]; cbn [read_many].
+  - apply (good_ret f []).
+  - apply (good_bind f (step a) (fun b st1 => '(bs, st2) <- read_many step l st1 ;; Ok (b :: bs, st2))); [apply Hs|].
+    intros b. apply (good_bind f (read_many step l) (fun bs st2 => Ok (b :: bs, st2))); [exact IH|].
+    intros bs. apply good_ret.
+Qed.
+
+Lemma good_bitb f : good f d_read_bitb.
+Proof.
+  split.
+  - intros bl bs a bl' bs'. unfold d_read_bitb.
+    destruct (bl =? 0) eqn:E.
+    + intros [= <- <- <-]. exists []. split; [reflexivity|]. intros tail. reflexivity.
+    + destruct bs as [|b r]; cbn; [discriminate|]. intros [= <- <- <-]. exists [b]. split; [reflexivity|].
+      intros tail. reflexivity.
+  - intros bl bs _. unfold d_read_bitb. destruct (bl =? 0); [discriminate|]. destruct bs; cbn; discriminate.
+Qed.
+
+Lemma uint_loop_prefix fuel : forall v bl bs a bl' bs',
+  d_read_uintb_loop fuel v (bl, bs) = Ok (a, (bl', bs')) ->
+  exists used, bs = used ++ bs' /\ forall tail, d_read_uintb_loop fuel v (bl, used ++ tail) = Ok (a, (bl', tail)).
+Proof.
+  induction fuel as [|f IH]; intros v bl bs a bl' bs'; cbn [d_read_uintb_loop]; [discriminate|].
+  intros H.
+  destruct (d_read_bitb (bl, bs)) as [[b [bl1 bs1]]|e] eqn:E1; cbn [bind] in H; [|discriminate].
+  destruct (proj1 (good_bitb O) _ _ _ _ _ E1) as (u1 & -> & Hu1).
+  destruct b.
+  - injection H as <- <- <-. exists u1. split; [reflexivity|]. intros tail. rewrite Hu1. reflexivity.
+  - destruct (d_read_bitb (bl1, bs1)) as [[b2 [bl2 bs2]]|e] eqn:E2; cbn [bind] in H; [|discriminate].
+    destruct (proj1 (good_bitb O) _ _ _ _ _ E2) as (u2 & -> & Hu2).
+    destruct (IH _ _ _ _ _ _ H) as (u3 & -> & Hu3).
+    exists (u1 ++ u2 ++ u3). split; [rewrite <- !app_assoc; reflexivity|].
+    intros tail. rewrite <- !app_assoc. rewrite Hu1. cbn [bind]. rewrite Hu2. cbn [bind]. apply Hu3.
+Qed.
+
+Lemma uint_loop_fuel fuel : forall v bl bs, (length bs < fuel)%nat ->
+  d_read_uintb_loop fuel v (bl, bs) <> Err OutOfFuel.
+Proof.
+  induction fuel as [|f IH]; intros v bl bs Hlen; [lia|]. cbn [d_read_uintb_loop].
+  unfold d_read_bitb at 1.
+  destruct (bl =? 0) eqn:E; [cbn; discriminate|].
+  destruct bs as [|b r]; cbn [read_bit bind]; [discriminate|].
+  destruct b; [discriminate|].
+  destruct (d_read_bitb (bl - 1, r)) as [[b2 [bl2 bs2]]|e] eqn:E2; cbn [bind].
+  - destruct (proj1 (good_bitb O) _ _ _ _ _ E2) as (u2 & -> & _).
+    apply IH. cbn in Hlen. rewrite app_length in Hlen. lia.
+  - intros [= ->]. revert E2. unfold d_read_bitb. destruct (bl - 1 =? 0); [discriminate|]. destruct r; cbn; discriminate.
+Qed.
+
+Lemma good_uintb fuel : good fuel (d_read_uintb fuel).
+Proof. split; [apply uint_loop_prefix|apply uint_loop_fuel]. Qed.
+
+Lemma good_sintb fuel : good fuel (d_read_sintb fuel).
+Proof.
+  unfold d_read_sintb.
+  apply (good_bind fuel (d_read_uintb fuel)
+    (fun value st1 => if negb (value =? 0) then '(b, st2) <- d_read_bitb st1 ;; Ok (if b then - value else value, st2)
+                      else Ok (value, st1))); [apply good_uintb|].
+  intros value. destruct (negb (value =? 0)).
+  - apply (good_bind fuel d_read_bitb (fun (b : bool) st2 => Ok (if b then - value else value, st2))); [apply good_bitb|].
+    intros b. apply good_ret.
+  - apply good_ret.
+Qed.
+
+Lemma good_slice_band fuel ps comp qz sx sy band : good fuel (d_slice_band fuel ps comp qz sx sy band).
+Proof.
+  destruct band as [level o]. unfold d_slice_band.
+  set (xs := zrange (slice_left ps sx comp level) (slice_right ps sx comp level)).
+  set (ys := zrange (slice_top ps sy comp level) (slice_bottom ps sy comp level)).
+  set (stepx := fun y : Z => fun (x : Z) (st : rstate) =>
+        '(val, st1) <- d_read_sintb fuel st;; Ok ((comp, level, o, y, x, inverse_quant val (qz level o)), st1)).
+  apply (good_bind fuel (read_many (fun y st => read_many (stepx y) xs st) ys)
+           (fun rows st' => Ok (concat rows, st'))).
+  - apply good_read_many. intros y. apply good_read_many. intros x. unfold stepx.
+    apply (good_bind fuel (d_read_sintb fuel)
+             (fun val st1 => Ok ((comp, level, o, y, x, inverse_quant val (qz level o)), st1))); [apply good_sintb|].
+    intros val. apply good_ret.
+  - intros rows. apply good_ret.
+Qed.
+
+Lemma good_color_diff_slice_band fuel ps qz sx sy band : good fuel (d_color_diff_slice_band fuel ps qz sx sy band).
+Proof.
+  destruct band as [level o]. unfold d_color_diff_slice_band.
+  set (xs := zrange (slice_left ps sx Str_C1 level) (slice_right ps sx Str_C1 level)).
+  set (ys := zrange (slice_top ps sy Str_C1 level) (slice_bottom ps sy Str_C1 level)).
+  set (stepx := fun y : Z => fun (x : Z) (st : rstate) =>
+        '(val1, st1) <- d_read_sintb fuel st;;
+        '(val2, st2) <- d_read_sintb fuel st1;;
+        Ok ([(Str_C1, level, o, y, x, inverse_quant val1 (qz level o));
+             (Str_C2, level, o, y, x, inverse_quant val2 (qz level o))], st2)).
+  apply (good_bind fuel (read_many (fun y st => read_many (stepx y) xs st) ys)
+           (fun rows st' => Ok (concat (concat rows), st'))).
+  - apply good_read_many. intros y. apply good_read_many. intros x. unfold stepx.
+    apply (good_bind fuel (d_read_sintb fuel)
+             (fun val1 st1 => '(val2, st2) <- d_read_sintb fuel st1;;
+                Ok ([(Str_C1, level, o, y, x, inverse_quant val1 (qz level o));
+                     (Str_C2, level, o, y, x, inverse_quant val2 (qz level o))], st2))); [apply good_sintb|].
+    intros val1.
+    apply (good_bind fuel (d_read_sintb fuel)
+             (fun val2 st2 => Ok ([(Str_C1, level, o, y, x, inverse_quant val1 (qz level o));
+                     (Str_C2, level, o, y, x, inverse_quant val2 (qz level o))], st2))); [apply good_sintb|].
+    intros val2. apply good_ret.
+  - intros rows. apply good_ret.
+Qed.
+
+Lemma good_comp_bands fuel ps comp qz sx sy : good fuel (d_comp_bands fuel ps comp qz sx sy).
+Proof.
+  unfold d_comp_bands.
+  apply (good_bind fuel (read_many (d_slice_band fuel ps comp qz sx sy) (bands ps)) (fun ws st' => Ok (concat ws, st'))).
+  - apply good_read_many. intros band. apply good_slice_band.
+  - intros ws. apply good_ret.
+Qed.
+
+Lemma good_chroma_bands fuel ps qz sx sy : good fuel (d_chroma_bands fuel ps qz sx sy).
+Proof.
+  unfold d_chroma_bands.
+  apply (good_bind fuel (read_many (d_color_diff_slice_band fuel ps qz sx sy) (bands ps)) (fun ws st' => Ok (concat ws, st'))).
+  - apply good_read_many. intros band. apply good_color_diff_slice_band.
+  - intros ws. apply good_ret.
+Qed.
+
+Lemma app_eq_len {A} (a1 a2 b1 b2 : list A) : a1 ++ b1 = a2 ++ b2 -> length a1 = length a2 -> a1 = a2 /\ b1 = b2.
+Proof.
+  revert a2. induction a1 as [|x a1 IH]; intros [|y a2] H Hl; cbn in *; try discriminate; [split; [reflexivity|exact H]|].
+  injection H as -> H. destruct (IH a2 H ltac:(lia)) as [-> ->]. split; reflexivity.
+Qed.
+
+Lemma take_bits_spec n : forall bs t r, take_bits n bs = Ok (t, r) <-> bs = t ++ r /\ length t = n.
+Proof.
+  induction n as [|n IH]; intros bs t r; cbn [take_bits].
+  - split.
+    + intros [= <- <-]. split; reflexivity.
+    + intros [-> Hl]. destruct t; [reflexivity|discriminate].
+  - destruct bs as [|b bs]; cbn [read_bit bind].
+    + split; [discriminate|]. intros [H Hl]. destruct t; cbn in *; discriminate.
+    + destruct (take_bits n bs) as [[t1 r1]|e] eqn:E; cbn [bind].
+      * apply IH in E. destruct E as [-> <-]. split.
+        -- intros [= <- <-]. split; reflexivity.
+        -- intros [H Hl]. destruct t as [|b' t]; [discriminate|]. cbn in H, Hl. injection H as <- H. injection Hl as Hl.
+           destruct (app_eq_len _ _ _ _ H ltac:(lia)) as [-> ->]. reflexivity.
+      * split; [discriminate|]. intros [H Hl]. destruct t as [|b' t]; [discriminate|]. cbn in H, Hl.
+        injection H as <- H. injection Hl as Hl.
+        assert (HX : take_bits n bs = Ok (t, r)) by (apply IH; split; assumption). congruence.
+Qed.
+
+(* ---- padding bits: the bits flushed at the end of a bounded block are irrelevant -------------------- *)
+Definition d_block_of {A} (rd : rstate -> res (A * rstate)) (len : Z) (bs : list bool) : res (A * list bool) :=
+  '(ws, st) <- rd (len, bs) ;; r <- d_flush_inputb st ;; Ok (ws, r).
+
+Lemma block_padding_irrelevant {A} fuel (rd : rstate -> res (A * rstate)) :
+  good fuel rd -> forall len bs ws rest,
+  d_block_of rd len bs = Ok (ws, rest) ->
+  exists used pad bl',
+    bs = used ++ pad ++ rest /\
+    rd (len, bs) = Ok (ws, (bl', pad ++ rest)) /\
+    length pad = Z.to_nat bl' /\
+    forall pad' rest', length pad' = length pad ->
+      d_block_of rd len (used ++ pad' ++ rest') = Ok (ws, rest').
+Proof.
+  intros [Hp _] len bs ws rest H. unfold d_block_of in H.
+  destruct (rd (len, bs)) as [[ws1 [bl' bs']]|e] eqn:E; cbn [bind] in H; [|discriminate].
+  unfold d_flush_inputb in H.
+  destruct (take_bits (Z.to_nat bl') bs') as [[pad r]|e] eqn:ET; cbn [bind] in H; [|discriminate].
+  injection H as -> ->.
+  apply take_bits_spec in ET. destruct ET as [-> HL].
+  destruct (Hp _ _ _ _ _ E) as (used & -> & Hu).
+  exists used, pad, bl'. repeat split; try assumption.
+  intros pad' rest' HL'. unfold d_block_of. rewrite Hu. cbn [bind]. unfold d_flush_inputb.
+  assert (HT : take_bits (Z.to_nat bl') (pad' ++ rest') = Ok (pad', rest')) by (apply take_bits_spec; split; [reflexivity|lia]).
+  rewrite HT. reflexivity.
+Qed.
+
+Lemma padding_irrelevant_comp fuel ps comp qz sx sy len bs ws rest :
+  d_comp_block fuel ps comp qz sx sy len bs = Ok (ws, rest) ->
+  exists used pad bl',
+    bs = used ++ pad ++ rest /\
+    d_comp_bands fuel ps comp qz sx sy (len, bs) = Ok (ws, (bl', pad ++ rest)) /\
+    length pad = Z.to_nat bl' /\
+    forall pad' rest', length pad' = length pad ->
+      d_comp_block fuel ps comp qz sx sy len (used ++ pad' ++ rest') = Ok (ws, rest').
+Proof. apply (block_padding_irrelevant fuel (d_comp_bands fuel ps comp qz sx sy)). apply good_comp_bands. Qed.
+
+Lemma padding_irrelevant_chroma fuel ps qz sx sy len bs ws rest :
+  d_chroma_block fuel ps qz sx sy len bs = Ok (ws, rest) ->
+  exists used pad bl',
+    bs = used ++ pad ++ rest /\
+    d_chroma_bands fuel ps qz sx sy (len, bs) = Ok (ws, (bl', pad ++ rest)) /\
+    length pad = Z.to_nat bl' /\
+    forall pad' rest', length pad' = length pad ->
+      d_chroma_block fuel ps qz sx sy len (used ++ pad' ++ rest') = Ok (ws, rest').
+Proof. apply (block_padding_irrelevant fuel (d_chroma_bands fuel ps qz sx sy)). apply good_chroma_bands. Qed.
+
+(* ---- InvalidSliceYLength is raised by the validator's ld_slice only, and exactly on a too long slice_y_length ---- *)
+Lemma bind_nb {A B} (r : res A) (k : A -> res B) :
+  r <> Err BadYLen -> (forall a, k a <> Err BadYLen) -> bind r k <> Err BadYLen.
+Proof. intros Hr Hk. destruct r as [a|e]; cbn; [apply Hk|]. intros [= ->]. apply Hr. reflexivity. Qed.
+
+Lemma read_many_nb {S A B} (step : A -> S -> res (B * S)) l : forall st,
+  (forall a st, step a st <> Err BadYLen) -> read_many step l st <> Err BadYLen.
+Proof.
+  induction l as [|a l IH]; intros st Hs; cbn [read_many]; [discriminate|].
+  apply bind_nb; [apply Hs|]. intros [b st1]. apply bind_nb; [apply IH; exact Hs|]. intros [bs st2]. discriminate.
+Qed.
+
+Lemma read_bit_nb bs : read_bit bs <> Err BadYLen.
+Proof. destruct bs; discriminate. Qed.
+
+Lemma take_bits_nb n : forall bs, take_bits n bs <> Err BadYLen.
+Proof.
+  induction n as [|n IH]; intros bs; cbn [take_bits]; [discriminate|].
+  apply bind_nb; [apply read_bit_nb|]. intros [b bs1]. apply bind_nb; [apply IH|]. intros [t bs2]. discriminate.
+Qed.
+
+Lemma d_read_nbits_loop_nb n : forall v bs, d_read_nbits_loop n v bs <> Err BadYLen.
+Proof.
+  induction n as [|n IH]; intros v bs; cbn [d_read_nbits_loop]; [discriminate|].
+  apply bind_nb; [apply read_bit_nb|]. intros [b bs1]. apply IH.
+Qed.
+
+Lemma d_read_bitb_nb st : d_read_bitb st <> Err BadYLen.
+Proof.
+  destruct st as [bl bs]. unfold d_read_bitb. destruct (bl =? 0); [discriminate|].
+  apply bind_nb; [apply read_bit_nb|]. intros [b r]. discriminate.
+Qed.
+
+Lemma s_read_bit_nb st : s_read_bit st <> Err BadYLen.
+Proof.
+  destruct st as [bl bs]. unfold s_read_bit. destruct (bl - 1 <=? -1); [discriminate|].
+  apply bind_nb; [apply read_bit_nb|]. intros [b r]. discriminate.
+Qed.
+
+Lemma d_uint_loop_nb fuel : forall v st, d_read_uintb_loop fuel v st <> Err BadYLen.
+Proof.
+  induction fuel as [|f IH]; intros v st; cbn [d_read_uintb_loop]; [discriminate|].
+  apply bind_nb; [apply d_read_bitb_nb|]. intros [b st1]. destruct b; [discriminate|].
+  apply bind_nb; [apply d_read_bitb_nb|]. intros [b2 st2]. apply IH.
+Qed.
+
+Lemma s_uint_loop_nb fuel : forall v st, s_read_uint_loop fuel v st <> Err BadYLen.
+Proof.
+  induction fuel as [|f IH]; intros v st; cbn [s_read_uint_loop]; [discriminate|].
+  apply bind_nb; [apply s_read_bit_nb|]. intros [b st1]. destruct b; [discriminate|].
+  apply bind_nb; [apply s_read_bit_nb|]. intros [b2 st2]. apply IH.
+Qed.
+
+Lemma d_sint_nb fuel st : d_read_sintb fuel st <> Err BadYLen.
+Proof.
+  unfold d_read_sintb. apply bind_nb; [apply d_uint_loop_nb|]. intros [v st1].
+  destruct (negb (v =? 0)); [|discriminate]. apply bind_nb; [apply d_read_bitb_nb|]. intros [b st2]. discriminate.
+Qed.
+
+Lemma s_sint_nb fuel st : s_read_sint fuel st <> Err BadYLen.
+Proof.
+  unfold s_read_sint. apply bind_nb; [apply s_uint_loop_nb|]. intros [v st1].
+  destruct (negb (v =? 0)); [|discriminate]. apply bind_nb; [apply s_read_bit_nb|]. intros [b st2]. discriminate.
+Qed.
+
+Lemma d_comp_block_nb fuel ps comp qz sx sy len bs : d_comp_block fuel ps comp qz sx sy len bs <> Err BadYLen.
+Proof.
+  unfold d_comp_block, d_comp_bands. apply bind_nb.
+  - apply bind_nb; [|intros [ws st]; discriminate]. apply read_many_nb. intros [level o] st. unfold d_slice_band.
+    apply bind_nb; [|intros [rows st']; discriminate]. apply read_many_nb. intros y st1. apply read_many_nb. intros x st2.
+    apply bind_nb; [apply d_sint_nb|]. intros [v st3]. discriminate.
+  - intros [ws [bl bs']]. apply bind_nb; [|intros r; discriminate]. unfold d_flush_inputb.
+    apply bind_nb; [apply take_bits_nb|]. intros [t r]. discriminate.
+Qed.
+
+Lemma d_chroma_block_nb fuel ps qz sx sy len bs : d_chroma_block fuel ps qz sx sy len bs <> Err BadYLen.
+Proof.
+  unfold d_chroma_block, d_chroma_bands. apply bind_nb.
+  - apply bind_nb; [|intros [ws st]; discriminate]. apply read_many_nb. intros [level o] st. unfold d_color_diff_slice_band.
+    apply bind_nb; [|intros [rows st']; discriminate]. apply read_many_nb. intros y st1. apply read_many_nb. intros x st2.
+    apply bind_nb; [apply d_sint_nb|]. intros [v st3]. apply bind_nb; [apply d_sint_nb|]. intros [v2 st4]. discriminate.
+  - intros [ws [bl bs']]. apply bind_nb; [|intros r; discriminate]. unfold d_flush_inputb.
+    apply bind_nb; [apply take_bits_nb|]. intros [t r]. discriminate.
+Qed.
+
+Lemma s_comp_block_nb fuel ps comp sx sy len bs : s_comp_block fuel ps comp sx sy len bs <> Err BadYLen.
+Proof.
+  unfold s_comp_block. apply bind_nb.
+  - apply read_many_nb. intros [level o] st. unfold s_slice_band.
+    apply bind_nb; [|intros [rows st']; discriminate]. apply read_many_nb. intros y st1. apply read_many_nb. intros x st2.
+    apply s_sint_nb.
+  - intros [vs [rem bs']]. apply bind_nb; [|intros [pad r]; discriminate]. unfold s_block_end. apply take_bits_nb.
+Qed.
+
+Lemma s_chroma_block_nb fuel ps sx sy len bs : s_chroma_block fuel ps sx sy len bs <> Err BadYLen.
+Proof.
+  unfold s_chroma_block. apply bind_nb.
+  - apply read_many_nb. intros [level o] st. unfold s_color_diff_slice_band.
+    apply bind_nb; [|intros [rows st']; discriminate]. apply read_many_nb. intros y st1. apply read_many_nb. intros x st2.
+    apply bind_nb; [apply s_sint_nb|]. intros [v st3]. apply bind_nb; [apply s_sint_nb|]. intros [v2 st4]. discriminate.
+  - intros [vs [rem bs']]. apply bind_nb; [|intros [pad r]; discriminate]. unfold s_block_end. apply take_bits_nb.
+Qed.
+
+(* the deserialiser never raises it: it clamps *)
+Lemma s_slice_never_bad_length fuel p sx sy bs : s_slice fuel p sx sy bs <> Err BadYLen.
+Proof.
+  unfold s_slice. destruct (is_ld (sp_st p)); [|destruct (is_hq (sp_st p)); [|discriminate]].
+  - unfold s_ld_slice. rewrite read_nbits_eq. apply bind_nb; [apply d_read_nbits_loop_nb|]. intros [q bs1].
+    rewrite read_nbits_eq. apply bind_nb; [apply d_read_nbits_loop_nb|]. intros [syl bs2].
+    apply bind_nb; [apply s_comp_block_nb|]. intros [y bs3]. apply bind_nb; [apply s_chroma_block_nb|]. intros [c bs4]. discriminate.
+  - unfold s_hq_slice. apply bind_nb; [apply take_bits_nb|]. intros [prefix bs1].
+    rewrite read_nbits_eq. apply bind_nb; [apply d_read_nbits_loop_nb|]. intros [q bs2].
+    apply bind_nb; [|intros [cs bs3]; discriminate]. apply read_many_nb. intros comp bs3. unfold s_hq_comp.
+    rewrite read_nbits_eq. apply bind_nb; [apply d_read_nbits_loop_nb|]. intros [lenb bs4].
+    apply bind_nb; [apply s_comp_block_nb|]. intros [r bs5]. discriminate.
+Qed.
+
+Lemma d_hq_slice_nb fuel p sx sy bs : d_hq_slice fuel p sx sy bs <> Err BadYLen.
+Proof.
+  unfold d_hq_slice. apply bind_nb; [apply d_read_nbits_loop_nb|]. intros [pv bs1].
+  apply bind_nb; [apply d_read_nbits_loop_nb|]. intros [q bs2].
+  apply bind_nb; [|intros [cs bs3]; discriminate]. apply read_many_nb. intros comp bs3. unfold d_hq_comp.
+  apply bind_nb; [apply d_read_nbits_loop_nb|]. intros [lenb bs4].
+  apply bind_nb; [apply d_comp_block_nb|]. intros [r bs5]. discriminate.
+Qed.
+
+(* the validator raises InvalidSliceYLength exactly when the two header fields are readable and
+   slice_y_length exceeds the bits left in the slice -- which is exactly the deserialiser's clamp condition *)
+Lemma d_ld_bad_length_iff fuel p sx sy bs :
+  d_ld_slice fuel p sx sy bs = Err BadYLen <->
+  exists q bs1 syl bs2,
+    s_read_nbits 7 bs = Ok (q, bs1) /\
+    s_read_nbits (intlog2 (8 * slice_bytes (sp_st p) sx sy - 7)) bs1 = Ok (syl, bs2) /\
+    (syl >? ld_bits_left p sx sy) = true.
+Proof.
+  unfold d_ld_slice, ld_bits_left. rewrite !read_nbits_eq. split.
+  - destruct (d_read_nbits 7 bs) as [[q bs1]|e] eqn:E1; cbn [bind].
+    2:{ intros [= ->]. exfalso. exact (d_read_nbits_loop_nb _ _ _ E1). }
+    destruct (d_read_nbits (intlog2 (8 * slice_bytes (sp_st p) sx sy - 7)) bs1) as [[syl bs2]|e] eqn:E2; cbn [bind].
+    2:{ intros [= ->]. exfalso. exact (d_read_nbits_loop_nb _ _ _ E2). }
+    destruct (syl >? _) eqn:EC.
+    + intros _. exists q, bs1, syl, bs2. rewrite read_nbits_eq. repeat split; assumption.
+    + intros H. exfalso. revert H. apply bind_nb; [apply d_comp_block_nb|]. intros [yw bs3].
+      apply bind_nb; [apply d_chroma_block_nb|]. intros [cw bs4]. discriminate.
+  - intros (q & bs1 & syl & bs2 & E1 & E2 & EC). rewrite read_nbits_eq in E2. rewrite E1. cbn [bind]. rewrite E2. cbn [bind].
+    rewrite EC. reflexivity.
+Qed.
+
+(* ---- fuel: S (length bits) is always enough ------------------------------------------------------------ *)
+Definition okL {A} (bs : list bool) (r : res (A * list bool)) : Prop :=
+  r <> Err OutOfFuel /\ forall a bs', r = Ok (a, bs') -> (length bs' <= length bs)%nat.
+
+Lemma bind_okL {A B} bs (r : res (A * list bool)) (k : A * list bool -> res (B * list bool)) :
+  okL bs r -> (forall a bs', (length bs' <= length bs)%nat -> okL bs' (k (a, bs'))) -> okL bs (bind r k).
+Proof.
+  intros [Hr1 Hr2] Hk. destruct r as [[a bs']|e]; cbn [bind].
+  - specialize (Hk a bs' (Hr2 a bs' eq_refl)). destruct Hk as [Hk1 Hk2]. split; [exact Hk1|].
+    intros b bs'' H. specialize (Hk2 b bs'' H). specialize (Hr2 a bs' eq_refl). lia.
+  - split; [intros [= ->]; apply Hr1; reflexivity|discriminate].
+Qed.
+
+Lemma bind_nof {A B} bs (r : res (A * list bool)) (k : A * list bool -> res B) :
+  okL bs r -> (forall a bs', (length bs' <= length bs)%nat -> k (a, bs') <> Err OutOfFuel) -> bind r k <> Err OutOfFuel.
+Proof.
+  intros [Hr1 Hr2] Hk. destruct r as [[a bs']|e]; cbn [bind].
+  - apply Hk. apply (Hr2 a bs' eq_refl).
+  - intros [= ->]; apply Hr1; reflexivity.
+Qed.
+
+Lemma read_many_okL {A B} (step : A -> list bool -> res (B * list bool)) l : forall bs,
+  (forall a bs', (length bs' <= length bs)%nat -> okL bs' (step a bs')) -> okL bs (read_many step l bs).
+Proof.
+  induction l as [|a l IH]; intros bs Hs; cbn [read_many].
+  - split; [discriminate|]. intros a bs' [= _ <-]. lia.
+  - apply bind_okL; [apply Hs; lia|]. intros b bs1 H1.
+    apply bind_okL; [apply IH; intros a' bs2 H2; apply Hs; lia|].
+    intros bl bs2 H2. split; [discriminate|]. intros x bs3 [= _ <-]. lia.
+Qed.
+
+Lemma d_read_nbits_loop_okL n : forall v bs, okL bs (d_read_nbits_loop n v bs).
+Proof.
+  induction n as [|n IH]; intros v bs; cbn [d_read_nbits_loop].
+  - split; [discriminate|]. intros a bs' [= _ <-]. lia.
+  - destruct bs as [|b r]; cbn [read_bit bind]; [split; discriminate|].
+    destruct (IH (py_shl v 1 + b2z b) r) as [H1 H2]. split; [exact H1|].
+    intros a bs' H. specialize (H2 a bs' H). cbn. lia.
+Qed.
+
+Lemma block_okL {A} fuel (rd : rstate -> res (A * rstate)) len bs :
+  good fuel rd -> (length bs < fuel)%nat -> okL bs (d_block_of rd len bs).
+Proof.
+  intros [Hp Hf] Hlen. unfold d_block_of.
+  destruct (rd (len, bs)) as [[ws [bl' bs']]|e] eqn:E; cbn [bind].
+  - destruct (Hp _ _ _ _ _ E) as (used & -> & _). unfold d_flush_inputb.
+    destruct (take_bits (Z.to_nat bl') bs') as [[pad r]|e] eqn:ET; cbn [bind].
+    + apply take_bits_spec in ET. destruct ET as [-> _]. split; [discriminate|].
+      intros a bs'' [= _ <-]. rewrite !app_length. lia.
+    + split; [|discriminate]. intros [= ->]. revert ET. clear. revert bs'.
+      induction (Z.to_nat bl') as [|n IH]; intros bs'; cbn [take_bits]; [discriminate|].
+      destruct bs' as [|b r]; cbn [read_bit bind]; [discriminate|].
+      destruct (take_bits n r) as [[t r1]|e] eqn:E; cbn [bind]; [discriminate|]. intros [= ->]. exact (IH r E).
+  - split; [|discriminate]. intros [= ->]. exact (Hf len bs Hlen E).
+Qed.
+
+Lemma d_slice_fuel_sufficient fuel p sx sy bs :
+  (length bs < fuel)%nat -> d_slice fuel p sx sy bs <> Err OutOfFuel.
+Proof.
+  intros Hlen. unfold d_slice. destruct (is_ld (sp_st p)); [|destruct (is_hq (sp_st p)); [|discriminate]].
+  - unfold d_ld_slice.
+    apply (bind_nof bs); [apply d_read_nbits_loop_okL|]. intros q bs1 H1.
+    apply (bind_nof bs1); [apply d_read_nbits_loop_okL|]. intros syl bs2 H2.
+    destruct (syl >? _); [discriminate|].
+    apply (bind_nof bs2); [apply (block_okL fuel (d_comp_bands fuel (sp_st p) Str_Y _ sx sy)); [apply good_comp_bands|lia]|].
+    intros yw bs3 H3.
+    apply (bind_nof bs3); [apply (block_okL fuel (d_chroma_bands fuel (sp_st p) _ sx sy)); [apply good_chroma_bands|lia]|].
+    intros cw bs4 H4. discriminate.
+  - unfold d_hq_slice.
+    apply (bind_nof bs); [apply d_read_nbits_loop_okL|]. intros pv bs1 H1.
+    apply (bind_nof bs1); [apply d_read_nbits_loop_okL|]. intros q bs2 H2.
+    apply (bind_nof bs2); [|intros; discriminate].
+    apply read_many_okL. intros comp bs3 H3. unfold d_hq_comp.
+    apply bind_okL; [apply d_read_nbits_loop_okL|]. intros lenb bs4 H4.
+    apply bind_okL; [apply (block_okL fuel (d_comp_bands fuel (sp_st p) comp _ sx sy)); [apply good_comp_bands|lia]|].
+    intros ws bs5 H5. split; [discriminate|]. intros a bs6 [= _ <-]. lia.
+Qed.
+
+Lemma s_slice_fuel_sufficient fuel p sx sy bs :
+  0 <= sp_size_scaler p -> d_slice fuel p sx sy bs <> Err BadYLen ->
+  (length bs < fuel)%nat -> s_slice fuel p sx sy bs <> Err OutOfFuel.
+Proof.
+  intros Hsc Hnb Hlen H.
+  destruct (slices_agree_converse fuel p sx sy bs Hsc Hnb) as [_ HE].
+  apply (d_slice_fuel_sufficient fuel p sx sy bs Hlen). apply HE. exact H.
+Qed.
+
+(* ---- a whole transform_data / fragment_data: the slices one after another -------------------------------- *)
+Lemma slices_seq_agree fuel p : 0 <= sp_size_scaler p -> forall coords bs ds rest,
+  d_slices fuel p coords bs = Ok (ds, rest) ->
+  exists ss, s_slices fuel p coords bs = Ok (ss, rest) /\
+             length ss = length coords /\
+             map (fun cs => s_dequantised p (fst (fst cs)) (snd (fst cs)) (snd cs)) (combine coords ss) = map d_writes ds /\
+             map s_qindex ss = map d_qindex ds /\ map s_lengths ss = map d_lengths ds.
+Proof.
+  intros Hsc. unfold d_slices, s_slices.
+  induction coords as [|c coords IH]; intros bs ds rest; cbn [read_many].
+  - intros [= <- <-]. exists []. repeat split; reflexivity.
+  - destruct (d_slice fuel p (fst c) (snd c) bs) as [d|e] eqn:Ed; cbn [bind]; [|discriminate].
+    destruct (slices_agree fuel p _ _ bs d Hsc Ed) as (s & Es & Hrest & _ & Hw).
+    destruct (qindex_lengths_agree fuel p _ _ bs d Hsc Ed) as (s' & Es' & Hq & Hl).
+    rewrite Es in Es'. injection Es' as <-.
+    destruct (read_many _ coords (d_rest d)) as [[ds' rest']|e] eqn:Er; cbn [bind]; [|discriminate].
+    intros [= <- <-].
+    destruct (IH _ _ _ Er) as (ss & Ess & Hlen & Hws & Hqs & Hls).
+    exists (s :: ss). rewrite Es. cbn [bind]. rewrite Hrest. rewrite Ess. cbn [bind].
+    repeat split; cbn; congruence.
+Qed.
